@@ -262,13 +262,20 @@ Section Names.
                  (group e)).
 
   (* APIClient's tag properties: (property name, class it returns); None = client.py is not
-     importable because a property name is not an identifier *)
+     importable: a property name is not an identifier, or `from .endpoints.<module> import <Class>`
+     fails because a colliding tag's file (other class name) overwrote the module *)
   Definition props (l : list op) : option (list (str * str)) :=
     match client_tags (emitted_ops l) with
     | None => None
     | Some m =>
         let t := map (fun kc => (tag_attr (snd kc), class_of (snd kc))) (sort_by_key m) in
-        if forallb (fun nc => py_ident (fst nc)) t then Some (dict_of t) else None
+        let f := files l in
+        if forallb (fun nc => py_ident (fst nc)) t
+           && forallb (fun nc => match alookup (fst nc) f with
+                                 | Some (c, _) => str_eqb c (snd nc)
+                                 | None => false
+                                 end) t
+        then Some (dict_of t) else None
     end.
 
   (* generation as coded never fails because of an unparsable operation: warn and skip *)
